@@ -356,7 +356,8 @@ func plans(id, tier string) (Plan, bool) {
 			{Pkg: pkgExtV1, Harness: "c16_corpus", Instr: "v1", Shards: 16},
 			{Pkg: pkgExtV1, Harness: "c16_corpus", Instr: "v1", Params: "t=0.9;variants=2", Shards: 4},
 			{Pkg: pkgExtV1, Harness: "c16_corpus", Instr: "v1", Params: "t=0.99;variants=2", Shards: 4},
-			{Pkg: pkgExtV1, Harness: "c16_corpus", Instr: "v1", Params: "t=0.5;variants=2", Shards: 4},
+			// (a threshold below the default: thorough tier; its variant count differs so that the two tiers' job lists stay distinct)
+			{Pkg: pkgExtV1, Harness: "c16_corpus", Instr: "v1", Params: "t=0.5;variants=" + fmt.Sprint(pick(1, 2)), Shards: pick(2, 4)},
 			{Pkg: pkgExtV1, Harness: "c16_threshold", Instr: "v1", Shards: 16},
 		}}, true
 	case "C17":
